@@ -59,19 +59,19 @@ type ConnH struct {
 }
 
 type Ctl struct {
-	mu      sync.Mutex
-	parked  []*Parked
-	reqid   map[*go9p.SrvReq]int
-	Reqs    []*go9p.SrvReq // index = arrival number - 1
-	ReqConn []int
-	connIdx map[*go9p.Conn]int
-	Conns   []*ConnH
-	Events  []Event
-	Gated   bool // park at schedule points (else pass through)
-	TraceRecv bool
-	Srv     *go9p.Srv
-	Ops     *Ops
-	payload uint64
+	mu          sync.Mutex
+	parked      []*Parked
+	reqid       map[*go9p.SrvReq]int
+	Reqs        []*go9p.SrvReq // index = arrival number - 1
+	ReqConn     []int
+	connIdx     map[*go9p.Conn]int
+	Conns       []*ConnH
+	Events      []Event
+	Gated       bool // park at schedule points (else pass through)
+	TraceRecv   bool
+	Srv         *go9p.Srv
+	Ops         *Ops
+	payload     uint64
 	pendingConn *ConnH
 }
 
@@ -300,6 +300,7 @@ func (c *Ctl) RecvFrame(ch *ConnH) (*wire.Msg, []byte, error) {
 				ev["tag"] = int(m.Tag)
 				ev["type"] = wire.TypeName(m.Type)
 				ev["payload"] = PayloadOf(m)
+				ev["full"] = m.Type == wire.Rwalk && len(m.Wqid) == 2
 				if m.Type == wire.Rerror {
 					ev["ename"] = m.Ename
 				}
@@ -407,3 +408,5 @@ func PayloadOf(m *wire.Msg) uint64 {
 	}
 	return 0
 }
+
+func encode(m *wire.Msg, dotu bool) []byte { return wire.Encode(m, dotu) }
